@@ -221,7 +221,7 @@ var (
 	poolRecovery = []sc{{"rec", 50, "own", stringMuts}, {"rec", 15, "other", nil}, {"rechash", 8, "own", nil}, {"lit", 5, "", nil}, {"otp", 4, "own", nil}}
 	poolEv       = []sc{{"evtok", 40, "own", []string{"", "", "flip", "trunc"}}, {"evtok", 10, "other", nil}, {"sesstok", 10, "", nil},
 		{"empty", 12, "", nil}, {"absent", 12, "", nil}, {"lit", 6, "", nil}}
-	poolState  = []sc{{"state", 50, "own", []string{"", "", "", "flip", "trunc", "ext"}}, {"stateold", 15, "own", nil}, {"empty", 8, "", nil}, {"lit", 6, "", nil}}
+	poolState  = []sc{{"state", 50, "own", []string{"", "", "", "flip", "trunc", "ext"}}, {"stateold", 15, "own", nil}, {"empty", 8, "", nil}, {"absent", 8, "", nil}, {"lit", 6, "", nil}}
 	poolCookie = []sc{{"cookie", 50, "any", []string{"", "", "", "flip", "truncbytes", "extbytes", "trunc", "altbits"}}, {"lit", 10, "", nil}, {"empty", 5, "", nil},
 		{"pwhash", 4, "any", nil}}
 )
